@@ -1821,7 +1821,9 @@ func statusesOf(es []entryObs) []string {
 // (entries the script leaves without a simulated event) + (surplus) <= DisabledEventsMaxDistance every such entry can
 // be left out.  When the recorded log is the shorter one, the alignment first leaves out simulated events to even out
 // the amounts and only adds to them later: the verdicts are demanded when the simulated events reported missing are
-// among the ones the script left without an entry (otherwise the case is counted, not judged).
+// among the ones the script left without an entry (otherwise the case is counted, not judged) - or when the script
+// leaves no recorded entry without its simulated event (only deletions, re-digests, retypes): then leaving out the
+// deleted events is itself one of the ways to even out the amounts, and none pairs more entries with their own events.
 func (g *genCtx) truthJudge(c *gal.Ctx, idx int, o runObs, descr interface{}, site string) bool {
 	t, b := g.truth, g.b
 	nExp, nSim := len(bankPos(g.evs, g.alg)), len(b.simIdx(g.alg))
@@ -1837,7 +1839,7 @@ func (g *genCtx) truthJudge(c *gal.Ctx, idx int, o runObs, descr interface{}, si
 	for _, e := range o.Entries {
 		if e.Exp == -1 && e.Calc >= 0 {
 			nMissing++
-			if nExp < nSim && !t.missing[e.Calc] {
+			if nExp < nSim && !t.missing[e.Calc] && t.leftOut > 0 {
 				c.Count("edit script: a simulated event that has its recorded entry is left out (verdicts of the script not demanded)")
 				return true
 			}
